@@ -339,6 +339,84 @@ def main():
         h.rev("cancel_bid", o, i, probe=True).rev("expire_bid", "exec", i, probe=True)
     h.rev("cancel_ask", "seller", U3, probe=True).rev("expire_ask", "exec", U3, probe=True).rev("reject_bid", "exec", U1, 10).rev("cancel_bid", "buyer", U1) \
         .match("exec", A1, B1.replace("0", "1"), "2", 10).write()
+    # a legacy book larger than any page size a batched migration might use: 128 event-log bids with current-format bids
+    # among them (the 11th and the 70th key), migrated from 0.19.0 and from 0.18.2
+    for ver in ("0.19.0", "0.18.2"):
+        h = H("c15_large_legacy_book_" + ver.replace(".", "_"), "a legacy book of 130 bids migration").env()
+        h.lines += ["SEEDCFG ats ~ base cv q appr exec - feeb=0.1 [] [] 0 10", "SEEDVER ats_smart_contract " + ver]
+        keys = ["%08x-0000-4000-8000-%012x" % (0x10000000 + 7919 * i, i) for i in range(130)]
+        for n, k in enumerate(sorted(keys)):
+            if n in (10, 69):
+                h.lines.append("SEEDBID3 %s %s buyer base 100 0 q 200 0 20:q 0 2" % (enc(k), enc(k)))
+            else:
+                h.lines.append("SEEDBID2 %s %s buyer base 100 q 200 20:q 2 %s" % (enc(k), enc(k), "F:20:40:4" if n % 3 else "[]"))
+        h.migrate()
+        for n, k in enumerate(sorted(keys)):
+            if n in (0, 9, 10, 11, 68, 69, 70, 99, 100, 101, 128, 129):
+                h.query("get_bid", k).rev("cancel_bid", "buyer", k, probe=True)
+        h.write()
+    # a run of more than 100 current-format bids between legacy bids (a paged scan that stops at a page without legacy entries)
+    h = H("c14_run_of_current_bids", "legacy bids before and after a run of 105 current-format bids migration").env()
+    h.lines += ["SEEDCFG ats ~ base cv q appr exec - feeb=0.1 [] [] 0 10", "SEEDVER ats_smart_contract 0.19.0"]
+    keys = sorted("%08x-0000-4000-8000-%012x" % (0x10000000 + 7919 * i, i) for i in range(112))
+    for n, k in enumerate(keys):
+        if n in (0, 1, 108, 109, 110, 111):
+            h.lines.append("SEEDBID2 %s %s buyer base 100 q 200 20:q 2 F:20:40:4" % (enc(k), enc(k)))
+        else:
+            h.lines.append("SEEDBID3 %s %s buyer base 100 0 q 200 0 20:q 0 2" % (enc(k), enc(k)))
+    h.migrate()
+    for n in (0, 1, 2, 107, 108, 109, 111):
+        h.query("get_bid", keys[n]).rev("cancel_bid", "buyer", keys[n], probe=True)
+    h.write()
+    NIL = "00000000-0000-0000-0000-000000000000"
+    H("c06_c16_nil_uuid", "orders under the nil uuid and the all-f uuid: queries and every exit").env() \
+        .inst(bfr="0.1", bfa="feeb").create_ask("seller", [(30, "cv")], NIL, "cv", "q", "2", 30).approve("appr", [(30, "base")], NIL, "base", 30) \
+        .create_bid("buyer", [(132, "q")], NIL, (12, "q"), "2", "q", 120, 60).query("get_ask", NIL).query("get_bid", NIL) \
+        .query("get_ask", NIL.replace("-", "")).match("exec", NIL, NIL, "2", 10).exits(owner_a="seller", owner_b="buyer", a=NIL, b=NIL) \
+        .rev("reject_bid", "exec", NIL, 10).rev("reject_ask", "exec", NIL, 10).rev("cancel_bid", "buyer", NIL).rev("cancel_ask", "seller", NIL) \
+        .create_bid("buyer", [(22, "q")], "ffffffff-ffff-ffff-ffff-ffffffffffff", (2, "q"), "2", "q", 20, 10).query("get_bid", "ffffffff-ffff-ffff-ffff-ffffffffffff") \
+        .rev("expire_bid", "exec", "ffffffff-ffff-ffff-ffff-ffffffffffff").write()
+    for code in ("Ra", "Rp", "Rc", "Rd"):
+        H("c10_marker_variant_" + code, "a restricted marker with " + {"Ra": "required attributes", "Rp": "status proposed", "Rc": "status cancelled", "Rd": "status destroyed"}[code]).env(markers={"base": code, "q": code}) \
+            .inst(afr="0.1", afa="feea", bfr="0.1", bfa="feeb") \
+            .create_ask("seller", [], A1, "base", "q", "2", 10).create_ask("seller", [(10, "base")], A2, "base", "q", "2", 10) \
+            .create_bid("buyer", [], B1, (2, "q"), "2", "q", 20, 10).create_bid("buyer", [(22, "q")], B2, (2, "q"), "2", "q", 20, 10) \
+            .create_ask("seller", [(10, "cv")], A2, "cv", "q", "2", 10).approve("appr", [], A2, "base", 10) \
+            .match("exec", A1, B1, "2", 4).exits(owner_a="seller", owner_b="buyer").rev("reject_bid", "exec", B1, 2).rev("cancel_ask", "seller", A2).write()
+    h = H("c13_instantiate_with_funds", "instantiate called with funds attached").env()
+    h.lines += ["INSTF 1:nhash admin ats base cv q appr exec - - - - [] [] 0 1"]
+    h.create_ask("seller", [(5, "base")], A1, "base", "q", "2", 5).query("get_contract_info").write()
+    h = H("c13_instantiate_with_funds_2", "instantiate called with several coins, incoherent and coherent").env()
+    h.lines += ["INSTF 100:base,5:q admin ats base cv q appr exec - - - - [] [] 1 15", "INSTF 100:base,5:q admin ats base cv q appr exec - - - - [] [] 1 10",
+                "INSTF 0:q admin ats base cv q appr exec - - - - [] [] 0 1"]
+    h.query("get_contract_info").write()
+    H("c03_zero_amount_coins", "requests that must carry no funds sent with zero-amount coins; approvals with an extra coin").env().inst() \
+        .create_ask("seller", [(5, "base")], A1, "base", "q", "2", 5).create_bid("buyer", [(10, "q")], B1, None, "2", "q", 10, 5) \
+        .create_ask("seller", [(5, "cv")], A2, "cv", "q", "2", 5) \
+        .match("exec", A1, B1, "2", 1, funds=[(0, "q")]).rev("reject_bid", "exec", B1, 1, funds=[(0, "q")]).rev("expire_ask", "exec", A1, funds=[(0, "base")], probe=True) \
+        .rev("cancel_bid", "buyer", B1, funds=[(0, "q"), (0, "base")], probe=True).modify("exec", funds=[(0, "q")]) \
+        .approve("appr", [(5, "base"), (7, "q")], A2, "base", 5).approve("appr", [(5, "base"), (5, "base")], A2, "base", 5) \
+        .approve("appr", [(5, "base"), (0, "q")], A2, "base", 5).approve("appr", [(5, "base")], A2, "base", 5) \
+        .create_bid("buyer", [(10, "q"), (0, "base")], B2, None, "2", "q", 10, 5).create_ask("seller", [(5, "base"), (1, "q")], B2, "base", "q", "2", 5).write()
+    H("c05_contract_as_sender", "privileged requests sent from the contract's own address").env().inst() \
+        .create_ask("seller", [(5, "base")], A1, "base", "q", "2", 5).create_bid("buyer", [(10, "q")], B1, None, "2", "q", 10, 5) \
+        .rev("expire_ask", "cosmos2contract", A1).rev("reject_bid", "cosmos2contract", B1, 1).rev("expire_bid", "cosmos2contract", B1) \
+        .rev("reject_ask", "cosmos2contract", A1, 1).rev("cancel_ask", "cosmos2contract", A1).match("cosmos2contract", A1, B1, "2", 5) \
+        .modify("cosmos2contract", executors=["cosmos2contract"]).write()
+    H("c17_one_unit_left_of_a_huge_bid", "a reject leaving one unit of a bid near the decimal capacity").env().inst() \
+        .create_bid("buyer", [(5 * 10 ** 28, "q")], B1, None, "1", "q", 5 * 10 ** 28, 5 * 10 ** 28) \
+        .rev("reject_bid", "exec", B1, 5 * 10 ** 28 - 1).query("get_bid", B1).exits(owner_b="buyer").rev("reject_bid", "exec", B1, 1).write()
+    H("c09_ask_fee_product_association", "an ask fee whose rate and price need more than 28 decimals together, near a tie").env() \
+        .inst(precision=10, increment=10 ** 10, afr="0.1666666666666666666", afa="feea") \
+        .create_ask("seller", [(10 ** 10, "base")], A1, "base", "q", "0.0000000003", 10 ** 10) \
+        .create_bid("buyer", [(3, "q")], B1, None, "0.0000000003", "q", 3, 10 ** 10).match("exec", A1, B1, "0.0000000003", 10 ** 10).write()
+    H("c02_prorata_near_tie", "a fill leaving 5/6 of the quote with fee 3: the share is 2.4999...9 in 28 digits").env() \
+        .inst(bfr="0.005", bfa="feeb").create_bid("buyer", [(603, "q")], B1, (3, "q"), "2", "q", 600, 300) \
+        .create_ask("seller", [(300, "base")], A1, "base", "q", "2", 300).match("exec", A1, B1, "2", 50).match("exec", A1, B1, "2", 50) \
+        .match("exec", A1, B1, "2", 100).exits(owner_a="seller", owner_b="buyer").write()
+    H("c12_only_pending_asks", "fee changes while the ask side holds only asks awaiting approval").env().inst(afr="0.01", afa="feea") \
+        .create_ask("seller", [(5, "cv")], A1, "cv", "q", "2", 5).modify("exec", afr="0.5", afa="feea").modify("exec", afr="", afa="") \
+        .modify("exec", aattrs=["kyc"]).approve("appr", [(5, "base")], A1, "base", 5).modify("exec", afr="0.5", afa="feea").query("get_contract_info").write()
     # known numeric classes (recorded findings): witnesses live in corpus/known/
     H("k_inexact_match", "K_inexact: precision 18, increment 1e18, price 0.999999999999999999, size 1e18+1").env() \
         .inst(precision=18, increment=10 ** 18) \
